@@ -231,6 +231,58 @@ impl Report {
         self.violations.extend(o.violations);
     }
 
+    /// Serialise counters and violations so that another engine's process can merge them.
+    pub fn write_partial(&self, path: &Path) {
+        let v = json!({
+            "property": self.property,
+            "evaluations": self.evaluations, "states": self.states, "transitions": self.transitions,
+            "traces_validated": self.traces_validated, "exhaustive": self.exhaustive,
+            "distinct": self.distinct.iter().collect::<Vec<_>>(),
+            "samples": self.samples, "extra": self.extra, "assumptions": self.assumptions,
+            "violations": self.violations.iter().map(|v| json!({"sig": v.sig, "case": v.case, "detail": v.detail})).collect::<Vec<_>>(),
+        });
+        if let Some(d) = path.parent() {
+            let _ = std::fs::create_dir_all(d);
+        }
+        std::fs::write(path, serde_json::to_string(&v).unwrap()).unwrap_or_else(|e| machinery_failure(&format!("write partial: {e}")));
+    }
+    /// Merge a partial written by `write_partial` (extra keys are namespaced under `prefix`).
+    pub fn merge_partial(&mut self, path: &Path, prefix: &str) {
+        let txt = std::fs::read_to_string(path).unwrap_or_else(|e| machinery_failure(&format!("read partial {path:?}: {e}")));
+        let v: Value = serde_json::from_str(&txt).unwrap_or_else(|e| machinery_failure(&format!("partial json: {e}")));
+        let n = |k: &str| v[k].as_u64().unwrap_or(0);
+        self.evaluations += n("evaluations");
+        self.states += n("states");
+        self.transitions += n("transitions");
+        self.traces_validated += n("traces_validated");
+        self.exhaustive &= v["exhaustive"].as_bool().unwrap_or(false);
+        for d in v["distinct"].as_array().cloned().unwrap_or_default() {
+            if let Some(x) = d.as_u64() {
+                self.distinct.insert(x);
+            }
+        }
+        for s in v["samples"].as_array().cloned().unwrap_or_default() {
+            self.samples.push(s);
+        }
+        if let Some(m) = v["extra"].as_object() {
+            self.extra.insert(prefix.to_string(), Value::Object(m.clone()));
+        }
+        for a in v["assumptions"].as_array().cloned().unwrap_or_default() {
+            if let Some(a) = a.as_str() {
+                self.assumptions.push(a.to_string());
+            }
+        }
+        for x in v["violations"].as_array().cloned().unwrap_or_default() {
+            let mut sig = BTreeMap::new();
+            if let Some(m) = x["sig"].as_object() {
+                for (k, val) in m {
+                    sig.insert(k.clone(), val.as_str().unwrap_or("").to_string());
+                }
+            }
+            self.violations.push(Violation { sig, case: x["case"].clone(), detail: x["detail"].as_str().unwrap_or("").to_string() });
+        }
+    }
+
     /// Classify violations against the ledger, write replay files, write
     /// evidence, print the verdict lines and return the process exit code.
     pub fn finish(mut self) -> i32 {
@@ -447,6 +499,7 @@ pub fn scratch_dir(tag: &str) -> PathBuf {
 pub struct Args {
     pub tier: Tier,
     pub replay: Option<PathBuf>,
+    pub merge: Vec<PathBuf>,
     pub rest: Vec<String>,
 }
 pub fn parse_args(args: &[String]) -> Args {
@@ -455,6 +508,7 @@ pub fn parse_args(args: &[String]) -> Args {
         _ => Tier::Quick,
     };
     let mut replay = None;
+    let mut merge = vec![];
     let mut rest = vec![];
     let mut i = 0;
     while i < args.len() {
@@ -471,11 +525,15 @@ pub fn parse_args(args: &[String]) -> Args {
                 i += 1;
                 replay = Some(PathBuf::from(args.get(i).cloned().unwrap_or_else(|| machinery_failure("--replay needs a path"))));
             }
+            "--merge" => {
+                i += 1;
+                merge.push(PathBuf::from(args.get(i).cloned().unwrap_or_else(|| machinery_failure("--merge needs a path"))));
+            }
             o => rest.push(o.to_string()),
         }
         i += 1;
     }
-    Args { tier, replay, rest }
+    Args { tier, replay, merge, rest }
 }
 
 pub fn read_replay_case(p: &Path) -> Value {
